@@ -262,7 +262,7 @@ CHECKS["C05"] = {
                    "is built as a fresh in-process cluster: Put must succeed iff the reachable copies >= W (white box: at least W copies hold the value) and fail with the write-quorum error otherwise; Get of a key stored on all copies must return it iff reachable copies >= RQ and fail with the read-quorum error otherwise. "
                    "mcq: clusters with MemberCountQuorum 1-3 are shrunk to exactly the quorum (still served) and below it: every public and internal command over RESP and NewDMap must fail with the cluster-quorum error and the stored keys must be unchanged."),
     "level_note": "trusted: the accessor that closes a member's RESP server; keys, entry paths and read-repair on/off vary with VERIF_SEED; a cluster that cannot be built or does not stabilise makes the scenario inconclusive (retried 3 times)",
-    "rule": ("rw: the complete matrix (90 scenarios per round; thorough 6 rounds with other keys/paths); non-trivial = reachable copies in {W-1, W, RQ-1, RQ}. mcq: non-trivial = the cluster was taken to exactly the quorum and (for quorum >= 2) below it. distinct = distinct scenario / case hash"),
+    "rule": ("rw: the complete matrix (124 scenarios per round, 34 of them with the owner copy missing as after a failover; thorough 6 rounds with other keys/paths); non-trivial = reachable copies in {W-1, W, RQ-1, RQ}. mcq: non-trivial = the cluster was taken to exactly the quorum and (for quorum >= 2) below it. distinct = distinct scenario / case hash"),
     "assumptions": ["internal.node.updaterouting is excluded below the quorum: the code documents it as the precondition for operability"],
     "parts": [
         {"name": "rw", "pkg": ROOT, "test": "TestVerifC05RW", "kind": "plain", "shards_quick": 12, "shards_thorough": 16, "timeout_quick": 400, "timeout_thorough": 2400},
